@@ -36,13 +36,15 @@ VARIABLES scn, pc, verdict
 vars == <<scn, pc, verdict>>
 
 \* ---- the query as the verifier sees it
-HasSigAlg(s)  == s.mut # "sigalg_removed"
+\* nosigalg_signed: the peer signed the query *without* an algorithm parameter (RSA-SHA1 over the other parameters) and
+\* sends none: there is nothing that says how to verify it
+HasSigAlg(s)  == s.mut \notin {"sigalg_removed", "nosigalg_signed"}
 SigAlgOK(s)   == HasSigAlg(s) /\ s.mut # "sigalg_unsupported"
 HasSig(s)     == s.mut # "sig_removed"
 HasMsg(s)     == s.mut # "msg_removed"
 \* the octet string the verifier rebuilds equals the one that was signed
 HasRelay(s)   == s.relay # "none"
-SameString(s) == /\ RebuildSame(s)
+SameString(s) == /\ RebuildSame(s) /\ s.mut # "nosigalg_signed"
                  /\ \/ s.mut \in {"none", "reordered", "extra_param"}
                     \/ (s.mut = "relay_removed" /\ ~HasRelay(s)) \/ (s.mut = "relay_changed" /\ ~HasRelay(s))
 SigIntact(s)  == s.mut # "sig_changed" /\ s.mut # "sig_other_message"
